@@ -252,6 +252,10 @@ var formsNoZC = []string{"add", "addmany", "range", "opt", "mixed", "cowclone", 
 // buildForm constructs a library bitmap holding exactly m in the given storage form.
 // It returns an error string when the construction itself misbehaves.
 func buildForm(r *Rng, m *ISet, form string) (*BM, string) {
+	if form == "frozen" && curVariant == "checkptr" {
+		// the library's own frozen arena trips checkptr on legal input (see DESIGN.md 2.3)
+		form = "frombuffer"
+	}
 	bm := &BM{M: m.Clone(), Form: form}
 	b := roaring.New()
 	card := m.Card()
